@@ -688,6 +688,13 @@ def run(ctx):
               ranges=['S!A1:A2'], unbounded=[], inputs=['S!A1'], cells=['S!A1', 'S!A2', 'S!B1', 'S!C1'], tags=['plugins'])
     for fmt in FORMATS:
         jobs.append((pf, fmt, False, vals[:2], 3, 12000))
+    # a computed reference (OFFSET) as a member of a saved plain range
+    of = dict(name='offset_member', spec=family.S({'A1': 1, 'A2': 2, 'A3': 3, 'E1': 0, 'B1': '=OFFSET(A1,E1,0)', 'B2': '=A2*10', 'B3': '=A3*10',
+                                                   'C1': '=SUM(B1:B3)'}),
+              ranges=['S!B1:B3'], unbounded=[], inputs=['S!A1', 'S!A2'], cells=['S!A1', 'S!A2', 'S!A3', 'S!E1', 'S!B1', 'S!B2', 'S!B3', 'S!C1'], tags=[])
+    for fmt in ('pkl', 'yml'):
+        jobs.append((of, fmt, False, vals[:2], 3, 12000))
+        jobs.append((of, fmt, False, vals[:2], 3, 12000, False))
     ctx.pmap(work_lockstep, jobs, timeout=3000)
     # C
     ctx.pmap(work_rules, [(f, cyc) for f in fams for cyc in (False, True)] + [(f, 'bare') for f in fams[:6]], timeout=1200)
